@@ -53,12 +53,13 @@ ASSUMPTIONS = [
 ]
 TOL_REL = 1e-6
 KEY = "C04-etransfer-conditioning"
-SAFETY = 256.0         # observed error / estimate: <= 7.2 on the core-s list (504 quartets), <= 3.3 on in-range adversarial
+SAFETY = 1024.0        # observed error / estimate: <= 7.2 on the core-s list (504 quartets), <= 3.3 on in-range adversarial
                        # geometries, 12 on a tight-f contraction, <= 75 on 344 random quartets (there at 8e-9 of Schwarz)
 EXTRA = {
-    "known_finding_predicate": "est = 2^-53 * 256 * max over primitive quartets of kappa^(lc+ld) * h^lb exceeds 1e-6 and the "
+    "known_finding_predicate": "est = 2^-53 * 1024 * max over primitive quartets of kappa^(lc+ld) * h^lb * hd^ld exceeds 1e-6 and the "
                                "observed error / Schwarz scale is <= est; kappa = max(1, (p/q) sqrt(|PA|^2+1/(2p)) / "
-                               "sqrt(|QC|^2+1/(2q))), h = max(1, |AB| sqrt(2p)), for the orientation that is evaluated",
+                               "sqrt(|QC|^2+1/(2q))), h = max(1, |AB| sqrt(2p)), hd = max(1, |CD| sqrt(2q)), for the orientation that is "
+                               "evaluated",
 }
 
 
@@ -118,13 +119,14 @@ def _pair_diag(model, sa, sb):
     return _SCHW[key]
 
 
-def _amp_prim(A, B, C, D, a, b, c, d, lb, lcd):
+def _amp_prim(A, B, C, D, a, b, c, d, lb, lcd, ld=0):
     """one primitive quartet evaluated as (a b | c d).  The code builds [a0|c0] from [a+c 0|00] by the electron
     transfer E[c+1][a] = (QC + (p/q) PA) E[c][a] - (p/q) E[c][a+1] + ..., in which (p/q) E[c][a+1] ~ (p/q) s_a E[c][a]
     is cancelled down to s_c E[c][a]: s_a = sqrt(|PA|^2 + 1/(2p)) and s_c = sqrt(|QC|^2 + 1/(2q)) are the sizes of
     (x - A) on the bra distribution and of (x - C) on the ket distribution.  Each of the lc+ld steps therefore
-    amplifies rounding by kappa = (p/q) s_a / s_c (when > 1); the horizontal recursion a -> b then cancels
-    |AB|^lb down to (1/sqrt(2p))^lb.  (A = B, C = D: kappa = sqrt(p/q).)"""
+    amplifies rounding by kappa = (p/q) s_a / s_c (when > 1); the horizontal recursions a -> b and c -> d then
+    cancel |AB|^lb down to (1/sqrt(2p))^lb and |CD|^ld down to (1/sqrt(2q))^ld.  (A = B, C = D: kappa = sqrt(p/q).)
+    The C11 helper arrived independently at the same form (its bound: observed <= 263 x estimate on 2200 quartets)."""
     p, q = a + b, c + d
     P = [(a * A[i] + b * B[i]) / p for i in range(3)]
     Q = [(c * C[i] + d * D[i]) / q for i in range(3)]
@@ -137,12 +139,13 @@ def _amp_prim(A, B, C, D, a, b, c, d, lb, lcd):
     sc = math.sqrt(dist(Q, C) ** 2 + wq * wq)
     kappa = max(1.0, (p / q) * sa / sc)
     h = max(1.0, dist(A, B) / wp)
-    return kappa ** lcd * h ** lb
+    hd = max(1.0, dist(C, D) / wq)
+    return kappa ** lcd * h ** lb * hd ** ld
 
 
 def amplification(ss):
     """estimated amplification of rounding errors when the quartet (four XShell) is evaluated in THIS orientation:
-    the largest kappa^(lc+ld) * h^lb over its primitive quartets"""
+    the largest kappa^(lc+ld) * h^lb * hd^ld over its primitive quartets"""
     A, B, C, D = [[float(x) for x in s.coord] for s in ss]
     best = 1.0
     for a in ss[0].exps:
@@ -150,7 +153,7 @@ def amplification(ss):
             for c in ss[2].exps:
                 for d in ss[3].exps:
                     best = max(best, _amp_prim(A, B, C, D, float(a), float(b), float(c), float(d),
-                                               ss[1].l, ss[2].l + ss[3].l))
+                                               ss[1].l, ss[2].l + ss[3].l, ss[3].l))
     return best
 
 
